@@ -31,7 +31,7 @@ ASSUMPTIONS = [
     "strings are over the declared vocabulary V (which may contain tokens no rule uses)",
 ]
 
-REGIMES = ["BOOL", "MT", "MP", "FREE", "QQ", "FLOAT", "FLOAT", "REAL", "LOG"]
+REGIMES = ["BOOL", "MT", "MP", "FREE", "QQ", "QQ", "FLOAT", "FLOAT", "REAL", "LOG"]
 
 
 def examples(tier):
